@@ -10,6 +10,7 @@ ROOT = os.path.dirname(os.path.dirname(os.path.abspath(__file__)))
 def work(patch):
     prop = patch.split("/")[-2]
     n = os.path.basename(patch).replace("refactor", "").replace(".diff", "")
+    n = str(int(n) + int(os.environ.get("BENIGN_OFFSET", "0")))
     sid = f"{prop}-b{n}"
     wt = f"/tmp/ingestb_{sid}"
     subprocess.run(["git", "-C", "/repo", "worktree", "remove", "--force", wt], capture_output=True)
